@@ -6,6 +6,7 @@ use super::super::{
     meta_subscriber::MoveSubscriber,
     meta_container::MoveContainer,
 };
+#[cfg(not(feature = "verif"))]
 use std::{
     fmt::Debug,
     ptr,
@@ -18,6 +19,10 @@ use std::{
     cell::UnsafeCell,
     mem::ManuallyDrop,
 };
+#[cfg(feature = "verif")]
+use std::{fmt::Debug, ptr, pin::Pin, num::NonZeroU32, cell::UnsafeCell, mem::ManuallyDrop};
+#[cfg(feature = "verif")]
+use crate::verif::atomic::{AtomicBool, Ordering::Relaxed};
 
 
 /// Basis for multiple producer / multiple consumer queues using a quick-and-dirty (but fast)
@@ -102,6 +107,7 @@ FullSyncMove<SlotType, BUFFER_SIZE> {
 
     #[inline(always)]
     fn available_elements_count(&self) -> usize {
+        #[cfg(feature = "verif")] crate::verif::yield_point_r("fsm.len");
         let tail = unsafe { &* self.tail.get() };
         let head = unsafe { &* self.head.get() };
         tail.overflowing_sub(*head).0 as usize
@@ -147,6 +153,7 @@ FullSyncMove<SlotType, BUFFER_SIZE> {
 
     #[inline(always)]
     unsafe fn peek_remaining(&self) -> [&[SlotType];2] {
+        #[cfg(feature = "verif")] crate::verif::yield_point_r("fsm.peek");
         let tail = *unsafe { &* self.tail.get() };
         let head = *unsafe { &* self.head.get() };
         let head_index = head as usize % BUFFER_SIZE;
@@ -192,6 +199,7 @@ FullSyncMove<SlotType, BUFFER_SIZE> {
         let mut len_before;
         loop {
             ogre_sync::lock(&self.concurrency_guard);
+            #[cfg(feature = "verif")] crate::verif::yield_point_r("fsm.leak.read");
             let tail = *unsafe { &* self.tail.get() };
             let head = *unsafe { &* self.head.get() };
             len_before = tail.overflowing_sub(head).0;
@@ -213,6 +221,7 @@ FullSyncMove<SlotType, BUFFER_SIZE> {
     #[inline(always)]
     pub fn publish_leaked_internal(&self) {
         let tail = unsafe { &mut * self.tail.get() };
+        #[cfg(feature = "verif")] crate::verif::yield_point_w("fsm.publish.write");
         *tail = tail.overflowing_add(1).0;
         ogre_sync::unlock(&self.concurrency_guard);
     }
@@ -222,6 +231,7 @@ FullSyncMove<SlotType, BUFFER_SIZE> {
     #[inline(always)]
     pub fn unleak_internal(&self) {
         let tail = unsafe { &mut * self.tail.get() };
+        #[cfg(feature = "verif")] crate::verif::yield_point_w("fsm.unleak.write");
         *tail = tail.overflowing_sub(1).0;
         ogre_sync::unlock(&self.concurrency_guard);
     }
@@ -238,6 +248,7 @@ FullSyncMove<SlotType, BUFFER_SIZE> {
         let mut len_before;
         loop {
             ogre_sync::lock(&self.concurrency_guard);
+            #[cfg(feature = "verif")] crate::verif::yield_point_r("fsm.consume.read");
             let head = *unsafe { &mut * self.head.get() };
             len_before = self.available_elements_count() as i32;
             if len_before > 0 {
@@ -257,6 +268,7 @@ FullSyncMove<SlotType, BUFFER_SIZE> {
     #[inline(always)]
     fn release_leaked_internal(&self) {
         let head = unsafe { &mut * self.head.get() };
+        #[cfg(feature = "verif")] crate::verif::yield_point_w("fsm.release.write");
         *head = head.overflowing_add(1).0;
     }
 
